@@ -1,11 +1,939 @@
-// Package c17 - correspondence harness for C17 (stub: not built yet).
+// Package c17 drives the real plugin.CLIPlugin against generated shell-script plugins
+// (exit status x stdout x stderr x timing x the five protocol commands) and the real
+// internal/io.LimitedWriter against scripted underlying writers.
 package c17
 
 import (
+	"context"
+	"crypto/sha256"
+	"encoding/hex"
+	"encoding/json"
 	"errors"
+	"fmt"
+	"os"
+	"path/filepath"
+	"runtime"
+	"strings"
+	"sync"
+	"sync/atomic"
+	"time"
 
+	nio "github.com/notaryproject/notation-go/internal/io"
+	"github.com/notaryproject/notation-go/plugin"
+	"github.com/notaryproject/notation-go/plugin/proto"
 	"github.com/notaryproject/notation-go/xverif/common"
+	fw "github.com/notaryproject/notation-plugin-framework-go/plugin"
 )
 
+// ---- the abstract case (JSON = Lean's `Input` / `Obs`) -------------------------------------
+
+type WStep struct {
+	Len    int  `json:"len"`
+	Accept int  `json:"accept"`
+	Fail   bool `json:"fail"`
+}
+
+type Meta struct {
+	Name             string   `json:"name"`
+	Description      string   `json:"description"`
+	Version          string   `json:"version"`
+	URL              string   `json:"url"`
+	Capabilities     []string `json:"capabilities"`
+	ContractVersions []string `json:"contractVersions"`
+}
+
+type Input struct {
+	Kind        string  `json:"kind"`
+	Command     string  `json:"command"`
+	PluginName  string  `json:"pluginName"`
+	Executable  bool    `json:"executable"`
+	ExitCode    int     `json:"exitCode"`
+	Stdout      string  `json:"stdout"`
+	StdoutSize  int     `json:"stdoutSize"`
+	Metadata    Meta    `json:"metadata"`
+	Stderr      string  `json:"stderr"`
+	StderrSize  int     `json:"stderrSize"`
+	ErrCode     string  `json:"errCode"`
+	ErrMessage  bool    `json:"errMessage"`
+	ErrMetadata bool    `json:"errMetadata"`
+	ExitAt      *int    `json:"exitAt"`
+	PipesAt     *int    `json:"pipesAt"`
+	CtxEnd      *int    `json:"ctxEnd"`
+	Cancel      bool    `json:"cancel"`
+	Probes      []int   `json:"probes"`
+	Limit       int64   `json:"limit"`
+	Steps       []WStep `json:"steps"`
+}
+
+type WOut struct {
+	N   int    `json:"n"`
+	Err string `json:"err"`
+}
+
+type Obs struct {
+	Result    string `json:"result"`
+	Code      string `json:"code"`
+	WithinCap bool   `json:"withinCap"`
+	InTime    bool   `json:"inTime"`
+	DoneBy    []bool `json:"doneBy"`
+	Wouts     []WOut `json:"wouts"`
+	Passed    int    `json:"passed"`
+	Remaining int64  `json:"remaining"`
+}
+
+// constants of the property (the Lean side has the same ones in Model/C17.lean)
+const (
+	specCap     = 64 * 1024 * 1024
+	specDelayMs = 5000
+	marginMs    = 3000
+	// emitters at least this large also have the Go heap watched while the call runs: its
+	// high-water mark must stay under heapBound (cap + buffer growth), far below the emitter's size
+	heapProbeSize = 500000000
+	heapBound     = 6 * specCap
+)
+
+var commands = []string{"getMetadata", "describeKey", "generateSignature", "generateEnvelope", "verifySignature"}
+
+var wireCommand = map[string]string{
+	"getMetadata": string(fw.CommandGetMetadata), "describeKey": string(fw.CommandDescribeKey),
+	"generateSignature": string(fw.CommandGenerateSignature), "generateEnvelope": string(fw.CommandGenerateEnvelope),
+	"verifySignature": string(fw.CommandVerifySignature),
+}
+
+func ip(v int) *int { return &v }
+
+func goodMeta(name string) Meta {
+	return Meta{Name: name, Description: "a test plugin", Version: "1.2.3", URL: "https://example.com/p",
+		Capabilities: []string{"SIGNATURE_GENERATOR.RAW"}, ContractVersions: []string{fw.ContractVersion}}
+}
+
+func newCall(command string) Input {
+	return Input{Kind: "call", Command: command, PluginName: "foo", Executable: true, Stdout: "reply",
+		Metadata: goodMeta("foo"), Stderr: "empty", ExitAt: ip(0), PipesAt: ip(0), CtxEnd: ip(30000),
+		Probes: []int{}, Steps: []WStep{}}
+}
+
+func newWriter(limit int64, steps []WStep) Input {
+	in := newCall("getMetadata")
+	in.Kind, in.Limit, in.Steps = "writer", limit, steps
+	if in.Steps == nil {
+		in.Steps = []WStep{}
+	}
+	return in
+}
+
+// ---- concretisation: abstract case -> script -------------------------------------------------
+
+type job struct {
+	in     Input
+	script string // path of the plugin executable
+	out    Obs
+}
+
+type gen struct {
+	c     *common.Ctx
+	dir   string
+	blobs map[string]string
+	n     int
+}
+
+func (g *gen) pick(xs ...string) string { return xs[g.c.Rand.Intn(len(xs))] }
+
+func (g *gen) blob(content string) string {
+	h := sha256.Sum256([]byte(content))
+	k := hex.EncodeToString(h[:8])
+	if p, ok := g.blobs[k]; ok {
+		return p
+	}
+	p := filepath.Join(g.dir, "blobs", k)
+	if err := os.WriteFile(p, []byte(content), 0o644); err != nil {
+		panic(err)
+	}
+	g.blobs[k] = p
+	return p
+}
+
+func jsonObj(kv ...any) string {
+	var sb strings.Builder
+	sb.WriteByte('{')
+	for i := 0; i+1 < len(kv); i += 2 {
+		if i > 0 {
+			sb.WriteByte(',')
+		}
+		k, _ := json.Marshal(kv[i])
+		v, _ := json.Marshal(kv[i+1])
+		sb.Write(k)
+		sb.WriteByte(':')
+		sb.Write(v)
+	}
+	sb.WriteByte('}')
+	return sb.String()
+}
+
+// metaJSON renders the metadata reply; an empty field is either left out, printed empty or null.
+func (g *gen) metaJSON(m Meta) string {
+	var kv []any
+	str := func(key, v string) {
+		if v != "" {
+			kv = append(kv, key, v)
+			return
+		}
+		switch g.c.Rand.Intn(3) {
+		case 0:
+			kv = append(kv, key, "")
+		case 1:
+			kv = append(kv, key, nil)
+		}
+	}
+	list := func(key string, v []string) {
+		if len(v) != 0 {
+			kv = append(kv, key, v)
+			return
+		}
+		switch g.c.Rand.Intn(3) {
+		case 0:
+			kv = append(kv, key, []string{})
+		case 1:
+			kv = append(kv, key, nil)
+		}
+	}
+	str("name", m.Name)
+	str("description", m.Description)
+	str("version", m.Version)
+	str("url", m.URL)
+	list("supportedContractVersions", m.ContractVersions)
+	list("capabilities", m.Capabilities)
+	return jsonObj(kv...)
+}
+
+// reply returns the valid reply of a command as (prefix, suffix) around a string that may be padded.
+func (g *gen) reply(in Input) (string, string) {
+	switch in.Command {
+	case "getMetadata":
+		if in.StdoutSize == 0 {
+			return g.metaJSON(in.Metadata), ""
+		}
+		m := in.Metadata
+		rest := jsonObj("name", m.Name, "version", m.Version, "url", m.URL,
+			"supportedContractVersions", m.ContractVersions, "capabilities", m.Capabilities)
+		return `{"description":"` + m.Description, `",` + rest[1:]
+	case "describeKey":
+		return `{"keyId":"k`, `","keySpec":"RSA-2048"}`
+	case "generateSignature":
+		return `{"keyId":"k`, `","signature":"c2ln","signingAlgorithm":"RSASSA-PSS-SHA-256","certificateChain":["Y2VydA=="]}`
+	case "generateEnvelope":
+		return `{"signatureEnvelope":"ZW52","annotations":{"a":"b"},"signatureEnvelopeType":"application/jose+json`, `"}`
+	default:
+		return `{"verificationResults":{"SIGNATURE_VERIFIER.TRUSTED_IDENTITY":{"success":true,"reason":"ok`, `"}},"processedAttributes":["x"]}`
+	}
+}
+
+func (g *gen) stdoutText(in Input) string {
+	switch in.Stdout {
+	case "emptyObject":
+		if in.Command != "getMetadata" && g.c.Rand.Intn(2) == 0 {
+			return g.metaJSON(goodMeta("foo")) // a reply of another command: no key in common
+		}
+		return g.pick(`{}`, `{"unrelated":1}`, "{ }\n", `{"Unknown":{"name":"foo"}}`)
+	case "jsonNull":
+		return g.pick("null", "null\n", " null ")
+	case "wrongType":
+		specific := map[string]string{
+			"getMetadata":       `{"name":5,"description":"d","version":"1","url":"u","supportedContractVersions":["1.0"],"capabilities":["c"]}`,
+			"describeKey":       `{"keyId":5,"keySpec":"RSA-2048"}`,
+			"generateSignature": `{"keyId":"k","signature":"***","signingAlgorithm":"x","certificateChain":[]}`,
+			"generateEnvelope":  `{"signatureEnvelope":"ZW52","signatureEnvelopeType":"t","annotations":[1]}`,
+			"verifySignature":   `{"verificationResults":[],"processedAttributes":[]}`,
+		}
+		return g.pick(`[]`, `"text"`, `42`, `true`, specific[in.Command], specific[in.Command])
+	case "notJson":
+		p, s := g.reply(Input{Command: in.Command, Metadata: goodMeta("foo")})
+		return g.pick("not json", `{"name":`, p+s+" trailing", `{'single':1}`, p+s+p+s, "\n", "\x00")
+	case "empty":
+		return ""
+	}
+	p, s := g.reply(in)
+	return p + s
+}
+
+func (g *gen) errorObject(in Input) (string, string) {
+	if in.StderrSize > 0 {
+		// errorMessage last so that it can be padded
+		var kv []any
+		if in.ErrCode != "" {
+			kv = append(kv, "errorCode", in.ErrCode)
+		}
+		if in.ErrMetadata {
+			kv = append(kv, "errorMetadata", map[string]string{"k": "v"})
+		}
+		head := jsonObj(kv...)
+		if len(kv) == 0 {
+			return `{"errorMessage":"boom`, `"}`
+		}
+		return head[:len(head)-1] + `,"errorMessage":"boom`, `"}`
+	}
+	var kv []any
+	if in.ErrCode != "" {
+		kv = append(kv, "errorCode", in.ErrCode)
+	} else if g.c.Rand.Intn(2) == 0 {
+		kv = append(kv, "errorCode", "")
+	}
+	if in.ErrMessage {
+		kv = append(kv, "errorMessage", g.pick("boom", "key not found", "{\"nested\":1}"))
+	} else if g.c.Rand.Intn(3) == 0 {
+		kv = append(kv, "errorMessage", "")
+	}
+	if in.ErrMetadata {
+		if g.c.Rand.Intn(2) == 0 {
+			kv = append(kv, "errorMetadata", map[string]string{"k": "v"})
+		} else {
+			kv = append(kv, "errorMetadata", map[string]string{})
+		}
+	} else if g.c.Rand.Intn(3) == 0 {
+		kv = append(kv, "errorMetadata", nil)
+	}
+	if g.c.Rand.Intn(4) == 0 {
+		kv = append(kv, "somethingElse", 1)
+	}
+	if !(in.ErrCode != "" || in.ErrMessage || in.ErrMetadata) && g.c.Rand.Intn(4) == 0 {
+		return "null", ""
+	}
+	s := jsonObj(kv...)
+	if g.c.Rand.Intn(2) == 0 {
+		s += "\n"
+	}
+	return s, ""
+}
+
+func (g *gen) stderrText(in Input) string {
+	switch in.Stderr {
+	case "errorObject":
+		p, s := g.errorObject(in)
+		return p + s
+	case "wrongType":
+		return g.pick(`[]`, `{"errorCode":5}`, `"str"`, `{"errorCode":"ERROR","errorMetadata":{"k":1}}`, `7`)
+	case "notJson":
+		return g.pick("panic: boom\n", "\n", " ", `{"errorCode":"ERROR"`, "Error: key not found", `{"errorCode":"ERROR"} trailing`)
+	}
+	return ""
+}
+
+func secs(ms int) string { return fmt.Sprintf("%d.%03d", ms/1000, ms%1000) }
+
+// emitter of `size` bytes: prefix + padding + suffix
+func padded(prefix, suffix string, size int, redirect string) string {
+	pad := size - len(prefix) - len(suffix)
+	if pad < 0 {
+		pad = 0
+	}
+	return fmt.Sprintf("printf '%%s' '%s'%s\nhead -c %d /dev/zero | tr '\\000' 'a'%s\nprintf '%%s' '%s'%s\n",
+		prefix, redirect, pad, redirect, suffix, redirect)
+}
+
+// add concretises one abstract call case into a plugin script (nothing is executed yet).
+func (g *gen) add(in Input) *job {
+	g.n++
+	dir := filepath.Join(g.dir, fmt.Sprintf("p%05d", g.n))
+	if err := os.MkdirAll(dir, 0o755); err != nil {
+		panic(err)
+	}
+	var sb strings.Builder
+	sb.WriteString("#!/bin/sh\n")
+	fmt.Fprintf(&sb, "[ \"$1\" = \"%s\" ] || exit 97\n", wireCommand[in.Command])
+	// stderr first: a reader that stops (cap) must not keep the script from printing the rest
+	if in.Stderr == "errorObject" && in.ErrMessage && in.StderrSize > 0 {
+		p, s := g.errorObject(in)
+		sb.WriteString(padded(p, s, in.StderrSize, " >&2"))
+	} else if t := g.stderrText(in); t != "" {
+		fmt.Fprintf(&sb, "cat '%s' >&2\n", g.blob(t))
+	}
+	if in.Stdout == "reply" && in.StdoutSize > 0 {
+		p, s := g.reply(in)
+		sb.WriteString(padded(p, s, in.StdoutSize, ""))
+	} else if t := g.stdoutText(in); t != "" {
+		fmt.Fprintf(&sb, "cat '%s'\n", g.blob(t))
+	}
+	e, p := *in.ExitAt, *in.PipesAt
+	if p > e {
+		// a descendant that inherits stdout and stderr and outlives the plugin process
+		fmt.Fprintf(&sb, "sleep %s &\n", secs(p))
+	}
+	switch {
+	case in.CtxEnd != nil && *in.CtxEnd < e:
+		// will be killed: the sleeping process must be the plugin process itself
+		fmt.Fprintf(&sb, "exec sleep %s\n", secs(e))
+	case e > 0:
+		fmt.Fprintf(&sb, "sleep %s\n", secs(e))
+	}
+	fmt.Fprintf(&sb, "exit %d\n", in.ExitCode)
+	path := filepath.Join(dir, "notation-"+strings.Map(func(r rune) rune {
+		if r == '/' || r == 0 {
+			return '_'
+		}
+		return r
+	}, in.PluginName))
+	mode := os.FileMode(0o755)
+	if !in.Executable {
+		mode = 0o644
+	}
+	if err := os.WriteFile(path, []byte(sb.String()), mode); err != nil {
+		panic(err)
+	}
+	return &job{in: in, script: path}
+}
+
+// ---- execution on the real code ----------------------------------------------------------------
+
+func classify(err error) (string, string) {
+	if err == nil {
+		return "ok", ""
+	}
+	var re proto.RequestError
+	if errors.As(err, &re) {
+		return "pluginError", string(re.Code)
+	}
+	var ee *plugin.PluginExecutableFileError
+	if errors.As(err, &ee) {
+		return "executableFileError", ""
+	}
+	var me *plugin.PluginMalformedError
+	if errors.As(err, &me) {
+		return "malformedPluginError", ""
+	}
+	return "other", ""
+}
+
+// size of what came back
+func returnedSize(resp any, err error) int {
+	if err != nil {
+		var re proto.RequestError
+		if errors.As(err, &re) && re.Err != nil {
+			return len(re.Err.Error())
+		}
+		return 0
+	}
+	n := 0
+	switch r := resp.(type) {
+	case *fw.GetMetadataResponse:
+		if r != nil {
+			n = len(r.Name) + len(r.Description) + len(r.Version) + len(r.URL)
+		}
+	case *fw.DescribeKeyResponse:
+		n = len(r.KeyID) + len(r.KeySpec)
+	case *fw.GenerateSignatureResponse:
+		n = len(r.KeyID) + len(r.Signature) + len(r.SigningAlgorithm)
+	case *fw.GenerateEnvelopeResponse:
+		n = len(r.SignatureEnvelope) + len(r.SignatureEnvelopeType)
+	case *fw.VerifySignatureResponse:
+		for _, v := range r.VerificationResults {
+			if v != nil {
+				n += len(v.Reason)
+			}
+		}
+	}
+	return n
+}
+
+func (j *job) run() {
+	in := j.in
+	o := Obs{DoneBy: []bool{}, Wouts: []WOut{}}
+	p, err := plugin.NewCLIPlugin(context.Background(), in.PluginName, j.script)
+	if err != nil {
+		o.Result = "other"
+		j.out = o
+		return
+	}
+	start := time.Now()
+	ctx := context.Background()
+	if in.CtxEnd != nil {
+		d := time.Duration(*in.CtxEnd) * time.Millisecond
+		var cancel context.CancelFunc
+		if in.Cancel {
+			ctx, cancel = context.WithCancel(ctx)
+			t := time.AfterFunc(d, cancel)
+			defer t.Stop()
+		} else {
+			ctx, cancel = context.WithTimeout(ctx, d)
+		}
+		defer cancel()
+	}
+	heapOK := func() bool { return true }
+	if in.StdoutSize >= heapProbeSize || in.StderrSize >= heapProbeSize {
+		heapOK = watchHeap()
+	}
+	var resp any
+	switch in.Command {
+	case "getMetadata":
+		resp, err = p.GetMetadata(ctx, &fw.GetMetadataRequest{})
+	case "describeKey":
+		resp, err = p.DescribeKey(ctx, &fw.DescribeKeyRequest{KeyID: "k"})
+	case "generateSignature":
+		resp, err = p.GenerateSignature(ctx, &fw.GenerateSignatureRequest{KeyID: "k", KeySpec: fw.KeySpecRSA2048, Hash: fw.HashAlgorithmSHA256, Payload: []byte("payload")})
+	case "generateEnvelope":
+		resp, err = p.GenerateEnvelope(ctx, &fw.GenerateEnvelopeRequest{KeyID: "k", PayloadType: "application/vnd.cncf.notary.payload.v1+json", SignatureEnvelopeType: "application/jose+json", Payload: []byte("payload")})
+	default:
+		resp, err = p.VerifySignature(ctx, &fw.VerifySignatureRequest{})
+	}
+	elapsed := time.Since(start)
+	o.Result, o.Code = classify(err)
+	o.WithinCap = heapOK() && returnedSize(resp, err) <= specCap
+	o.InTime = true
+	if in.CtxEnd != nil {
+		o.InTime = elapsed <= time.Duration(*in.CtxEnd+specDelayMs+marginMs)*time.Millisecond
+	}
+	for _, pr := range in.Probes {
+		o.DoneBy = append(o.DoneBy, elapsed <= time.Duration(pr)*time.Millisecond)
+	}
+	j.out = o
+}
+
+// watchHeap samples the heap until the returned function is called; that function reports
+// whether the high-water mark stayed within heapBound of the starting level.
+func watchHeap() func() bool {
+	runtime.GC()
+	var ms runtime.MemStats
+	runtime.ReadMemStats(&ms)
+	base := ms.HeapAlloc
+	var peak atomic.Uint64
+	stop, done := make(chan struct{}), make(chan struct{})
+	go func() {
+		defer close(done)
+		var m runtime.MemStats
+		for {
+			runtime.ReadMemStats(&m)
+			if m.HeapAlloc > peak.Load() {
+				peak.Store(m.HeapAlloc)
+			}
+			select {
+			case <-stop:
+				return
+			case <-time.After(5 * time.Millisecond):
+			}
+		}
+	}()
+	return func() bool {
+		close(stop)
+		<-done
+		return peak.Load() <= base+heapBound
+	}
+}
+
+func runAll(jobs []*job, workers int) {
+	var wg sync.WaitGroup
+	ch := make(chan *job)
+	for w := 0; w < workers; w++ {
+		wg.Add(1)
+		go func() {
+			defer wg.Done()
+			for j := range ch {
+				j.run()
+			}
+		}()
+	}
+	for _, j := range jobs {
+		ch <- j
+	}
+	close(ch)
+	wg.Wait()
+}
+
+// ---- LimitedWriter against a scripted underlying writer -----------------------------------------
+
+var errUnderlying = errors.New("underlying writer failed")
+
+type scripted struct {
+	cur    WStep
+	passed int
+}
+
+func (s *scripted) Write(p []byte) (int, error) {
+	n := len(p)
+	if s.cur.Accept < n {
+		n = s.cur.Accept
+	}
+	s.passed += n
+	if s.cur.Fail {
+		return n, errUnderlying
+	}
+	return n, nil
+}
+
+func runWriter(in Input) Obs {
+	u := &scripted{}
+	lw := nio.LimitWriter(u, in.Limit)
+	o := Obs{Result: "ok", WithinCap: true, InTime: true, DoneBy: []bool{}, Wouts: []WOut{}}
+	buf := make([]byte, 0)
+	for _, st := range in.Steps {
+		if cap(buf) < st.Len {
+			buf = make([]byte, st.Len)
+		}
+		u.cur = st
+		n, err := lw.Write(buf[:st.Len])
+		cls := "ok"
+		switch {
+		case err == nil:
+		case errors.Is(err, nio.ErrLimitExceeded):
+			cls = "limitExceeded"
+		case err == errUnderlying:
+			cls = "underlying"
+		default:
+			cls = "other"
+		}
+		o.Wouts = append(o.Wouts, WOut{N: n, Err: cls})
+	}
+	o.Passed = u.passed
+	o.Remaining = lw.N
+	return o
+}
+
+// ---- generators -----------------------------------------------------------------------------------
+
+func errorCodes() []string {
+	return []string{string(proto.ErrorCodeValidation), string(proto.ErrorCodeUnsupportedContractVersion),
+		string(proto.ErrorCodeAccessDenied), string(proto.ErrorCodeTimeout), string(proto.ErrorCodeThrottled),
+		string(proto.ErrorCodeGeneric)}
+}
+
+type stderrVariant struct {
+	kind       string
+	code       string
+	msg, mdata bool
+}
+
+func stderrVariants() []stderrVariant {
+	v := []stderrVariant{{kind: "empty"}}
+	for _, c := range errorCodes() {
+		v = append(v, stderrVariant{"errorObject", c, true, false})
+	}
+	v = append(v,
+		stderrVariant{"errorObject", string(proto.ErrorCodeGeneric), false, false}, // code only
+		stderrVariant{"errorObject", string(proto.ErrorCodeGeneric), true, true},   // everything
+		stderrVariant{"errorObject", "NOT_A_KNOWN_CODE", true, false},              // codes are not validated
+		stderrVariant{"errorObject", "", true, false},                              // message only
+		stderrVariant{"errorObject", "", false, true},                              // metadata only
+		stderrVariant{"errorObject", "", false, false},                             // incomplete
+		stderrVariant{"errorObject", "", false, false},                             // incomplete (another rendering)
+		stderrVariant{kind: "wrongType"},
+		stderrVariant{kind: "notJson"},
+		stderrVariant{kind: "notJson"},
+	)
+	return v
+}
+
+func (sv stderrVariant) apply(in *Input) {
+	in.Stderr, in.ErrCode, in.ErrMessage, in.ErrMetadata = sv.kind, sv.code, sv.msg, sv.mdata
+}
+
+// metadata variants: the valid one, each mandatory field removed, wrong names, version lists
+func metaVariants() []Meta {
+	out := []Meta{goodMeta("foo")}
+	for k := 0; k < 6; k++ {
+		m := goodMeta("foo")
+		switch k {
+		case 0:
+			m.Name = ""
+		case 1:
+			m.Description = ""
+		case 2:
+			m.Version = ""
+		case 3:
+			m.URL = ""
+		case 4:
+			m.Capabilities = []string{}
+		case 5:
+			m.ContractVersions = []string{}
+		}
+		out = append(out, m)
+	}
+	for _, n := range []string{"bar", "Foo", "foo ", "fo", "foo.exe", "notation-foo"} {
+		out = append(out, goodMeta(n))
+	}
+	for _, vs := range [][]string{{"2.0"}, {"1"}, {"1.0 "}, {"1.00"}, {"0.9", "1.1"}, {""}, {"2.0", fw.ContractVersion}, {fw.ContractVersion, fw.ContractVersion}} {
+		m := goodMeta("foo")
+		m.ContractVersions = vs
+		out = append(out, m)
+	}
+	m := goodMeta("foo")
+	m.Capabilities = []string{""}
+	out = append(out, m)
+	return out
+}
+
+func (g *gen) count(in Input, o Obs) {
+	c := g.c
+	c.Count("kind=" + in.Kind)
+	if in.Kind != "call" {
+		return
+	}
+	c.Count("command=" + in.Command)
+	c.Count("result=" + o.Result)
+	c.Count("stdout=" + in.Stdout)
+	c.Count("stderr=" + in.Stderr)
+	c.Count(fmt.Sprintf("exit=%d", in.ExitCode))
+	if o.Result == "pluginError" {
+		c.Count("code=" + o.Code)
+	}
+	if in.StdoutSize > specCap || in.StderrSize > specCap {
+		c.Count("over-cap")
+	}
+}
+
 // Run generates the cases of C17.
-func Run(c *common.Ctx) error { return errors.New("C17: harness not built yet") }
+func Run(c *common.Ctx) error {
+	g := &gen{c: c, dir: c.WorkDir, blobs: map[string]string{}}
+	if err := os.MkdirAll(filepath.Join(g.dir, "blobs"), 0o755); err != nil {
+		return err
+	}
+	svs := stderrVariants()
+	outKinds := []string{"reply", "emptyObject", "jsonNull", "wrongType", "notJson", "empty"}
+
+	// ---- A: immediate cases: exit x stdout x stderr x command --------------------------------
+	var imm []*job
+	for _, cmd := range commands {
+		for _, exit := range []int{0, 1, 2} {
+			for _, sv := range svs {
+				for _, ok := range outKinds {
+					in := newCall(cmd)
+					in.ExitCode, in.Stdout = exit, ok
+					sv.apply(&in)
+					imm = append(imm, g.add(in))
+				}
+				if cmd == "getMetadata" {
+					for _, m := range metaVariants()[1:] {
+						// the full cross with stderr only for exit 0 and a failing exit with few stderr kinds
+						if exit == 2 || (exit == 1 && sv.kind == "errorObject" && sv.code != string(proto.ErrorCodeGeneric)) {
+							continue
+						}
+						in := newCall(cmd)
+						in.ExitCode, in.Metadata = exit, m
+						sv.apply(&in)
+						imm = append(imm, g.add(in))
+					}
+				}
+			}
+		}
+	}
+	// every subset of the mandatory fields x name x version, successful exit
+	for mask := 0; mask < 64; mask++ {
+		for _, name := range []string{"foo", "bar"} {
+			for _, vs := range [][]string{{fw.ContractVersion}, {"2.0"}} {
+				m := goodMeta(name)
+				m.ContractVersions = vs
+				if mask&1 != 0 {
+					m.Name = ""
+				}
+				if mask&2 != 0 {
+					m.Description = ""
+				}
+				if mask&4 != 0 {
+					m.Version = ""
+				}
+				if mask&8 != 0 {
+					m.URL = ""
+				}
+				if mask&16 != 0 {
+					m.Capabilities = []string{}
+				}
+				if mask&32 != 0 {
+					m.ContractVersions = []string{}
+				}
+				in := newCall("getMetadata")
+				in.Metadata = m
+				imm = append(imm, g.add(in))
+			}
+		}
+	}
+	// a plugin file that cannot be started; a plugin called under another name
+	for _, cmd := range commands {
+		for _, sv := range svs[:3] {
+			in := newCall(cmd)
+			in.Executable = false
+			sv.apply(&in)
+			imm = append(imm, g.add(in))
+		}
+		for _, name := range []string{"bar", "Foo", "foo bar", "f"} {
+			in := newCall(cmd)
+			in.PluginName = name
+			imm = append(imm, g.add(in))
+			in.Metadata = goodMeta(name)
+			imm = append(imm, g.add(in))
+		}
+	}
+
+	// ---- B: timing cases ------------------------------------------------------------------------
+	type timing struct {
+		name          string
+		exitAt, pipes int
+		ctxEnd        *int
+		probes        []int
+	}
+	const held = 12000 // a descendant that holds the pipes "for ever" (longer than any bound)
+	timings := []timing{
+		{"slow-within-deadline", 400, 0, ip(3000), []int{200, 2900}},
+		{"slow-killed-at-deadline", 11000, 0, ip(1000), []int{700, 3500}},
+		{"descendant-holds-pipes", 0, held, ip(2000), []int{4500, 6500}},
+		{"descendant-holds-pipes-briefly", 0, 1500, ip(10000), []int{1000, 4000}},
+		{"descendant-holds-pipes-past-deadline", 0, 3000, ip(1000), []int{2500, 5500}},
+		{"killed-and-descendant-holds-pipes", 11500, held, ip(1000), []int{5500, 8500}},
+		{"no-context-descendant-briefly", 0, 1500, nil, []int{1000, 4000}},
+		{"no-context-descendant-holds-pipes", 0, held, nil, []int{4500, 7500}},
+	}
+	var timed []*job
+	// fixed combinations: stderr variant, exit status, deadline or cancellation
+	fixed := []struct {
+		sv     stderrVariant
+		exit   int
+		cancel bool
+	}{
+		{svs[0], 0, false},          // a well-behaved reply
+		{svs[6], 1, false},          // structured error, deadline
+		{svs[3], 2, true},           // structured error, cancellation
+		{svs[len(svs)-1], 2, false}, // not JSON
+		{svs[12], 0, true},          // incomplete error object
+		{svs[0], 0, true},
+	}
+	k := 0
+	for _, t := range timings {
+		combos := len(fixed)
+		if c.Thorough() {
+			combos = 16
+		}
+		for v := 0; v < combos; v++ {
+			in := newCall(commands[k%len(commands)])
+			k++
+			in.ExitAt, in.PipesAt, in.CtxEnd, in.Probes = ip(t.exitAt), ip(t.pipes), t.ctxEnd, t.probes
+			if v < len(fixed) {
+				in.ExitCode = fixed[v].exit
+				fixed[v].sv.apply(&in)
+				in.Cancel = t.ctxEnd != nil && fixed[v].cancel
+			} else {
+				in.ExitCode = c.Rand.Intn(3)
+				svs[c.Rand.Intn(len(svs))].apply(&in)
+				in.Stdout = outKinds[c.Rand.Intn(len(outKinds))]
+				in.Cancel = t.ctxEnd != nil && c.Rand.Intn(2) == 0
+			}
+			if in.CtxEnd != nil && *in.CtxEnd < *in.ExitAt {
+				in.ExitCode = 0 // the process that is killed is an exec'ed sleep: its own status would be 0
+			}
+			timed = append(timed, g.add(in))
+			c.Count("timing=" + t.name)
+		}
+	}
+
+	// ---- C: outputs around and beyond the cap ---------------------------------------------------
+	var big []*job
+	type bigCase struct {
+		cmd        string
+		out, err   int
+		exit       int
+		withStderr bool
+	}
+	bigs := []bigCase{
+		{"describeKey", 70000000, 0, 0, false},
+		{"getMetadata", 0, 70000000, 1, true},
+	}
+	if c.Thorough() {
+		bigs = nil
+		for i, cmd := range commands {
+			bigs = append(bigs,
+				bigCase{cmd, 70000000, 0, 0, false},
+				bigCase{cmd, 70000000, 0, i % 3, true},
+				bigCase{cmd, 0, 70000000, 1 + i%2, true},
+				bigCase{cmd, 0, 70000000, 0, true},
+				bigCase{cmd, specCap + 1, 0, 0, false},
+				bigCase{cmd, specCap, 0, 0, false},
+				bigCase{cmd, 0, specCap + 1, 1, true},
+				bigCase{cmd, 0, specCap, 1, true},
+				bigCase{cmd, 60000000, 0, 0, false},
+			)
+		}
+		bigs = append(bigs, bigCase{"generateSignature", 70000000, 70000000, 0, true},
+			bigCase{"getMetadata", 300000000, 0, 0, false}, bigCase{"describeKey", 0, 300000000, 1, true},
+			bigCase{"generateEnvelope", 536870912, 0, 0, false}, bigCase{"verifySignature", 0, 536870912, 1, true})
+	}
+	for _, b := range bigs {
+		in := newCall(b.cmd)
+		in.StdoutSize, in.StderrSize, in.ExitCode = b.out, b.err, b.exit
+		if b.withStderr {
+			stderrVariant{"errorObject", string(proto.ErrorCodeGeneric), true, false}.apply(&in)
+		}
+		big = append(big, g.add(in))
+	}
+
+	// ---- execute: timing cases alone (they sleep), then the rest on a pool, big ones one by one ---
+	runAll(timed, min(len(timed), 48))
+	runAll(imm, 8)
+	runAll(big, 1)
+	for _, js := range [][]*job{imm, timed, big} {
+		for _, j := range js {
+			c.Emit(j.in, j.out)
+			g.count(j.in, j.out)
+		}
+	}
+
+	// ---- D: LimitedWriter -----------------------------------------------------------------------
+	lens := []int{0, 1, 2, 3, 5}
+	accepts := []int{0, 2, 1 << 30}
+	var steps1 []WStep
+	for _, l := range lens {
+		for _, a := range accepts {
+			for _, f := range []bool{false, true} {
+				steps1 = append(steps1, WStep{l, a, f})
+			}
+		}
+	}
+	for limit := int64(-1); limit <= 5; limit++ {
+		in := newWriter(limit, nil)
+		c.Emit(in, runWriter(in))
+		for _, s1 := range steps1 {
+			in := newWriter(limit, []WStep{s1})
+			c.Emit(in, runWriter(in))
+			for _, s2 := range steps1 {
+				in := newWriter(limit, []WStep{s1, s2})
+				c.Emit(in, runWriter(in))
+				c.Count("kind=writer")
+			}
+		}
+	}
+	nrand := 4000
+	if c.Thorough() {
+		nrand = 40000
+	}
+	for r := 0; r < nrand; r++ {
+		limit := int64(c.Rand.Intn(400) - 5)
+		maxLen := 150
+		switch c.Rand.Intn(10) {
+		case 0:
+			limit = int64(c.Rand.Intn(1 << 20))
+			maxLen = 1 << 19
+		case 1:
+			limit = int64(c.Rand.Intn(8))
+			maxLen = 8
+		}
+		n := c.Rand.Intn(14)
+		steps := make([]WStep, n)
+		for s := range steps {
+			l := c.Rand.Intn(maxLen + 1)
+			st := WStep{Len: l, Accept: 1 << 30}
+			switch c.Rand.Intn(6) {
+			case 0:
+				st.Accept = c.Rand.Intn(l + 1) // short write
+			case 1:
+				st.Fail = true
+				st.Accept = c.Rand.Intn(l + 1)
+			}
+			steps[s] = st
+		}
+		in := newWriter(limit, steps)
+		o := runWriter(in)
+		c.Emit(in, o)
+		c.Count("kind=writer")
+		if o.Remaining <= 0 && limit > 0 {
+			c.Count("writer=exhausted")
+		}
+	}
+
+	c.Note("real CLIPlugin against generated #!/bin/sh plugins: %d immediate cases (5 commands x exit 0/1/2 x %d stdout kinds x %d stderr variants, %d metadata variants, all 64 subsets of the mandatory fields, non-executable file, other plugin names), %d timing cases in parallel (deadline / cancellation, killed child, descendants holding the pipes), %d cases around the 64 MiB cap; internal/io.LimitedWriter against scripted underlying writers: all sequences of <=2 writes over a small grid plus %d random sequences",
+		len(imm), len(outKinds), len(svs), len(metaVariants()), len(timed), len(big), nrand)
+	return nil
+}
